@@ -266,6 +266,12 @@ def r07_2(ctx):
             "different number of components": ({frozenset(("s1", "t1")), frozenset(("s2", "t2"))}, 2, 3, False),
             "one component matches two of the other": ({frozenset(("s1", "t1")), frozenset(("s1", "t2"))}, 2, 2, False),
             "two components match the same one of the other": ({frozenset(("s1", "t1")), frozenset(("s2", "t1"))}, 2, 2, False),
+            # with three components a permutation need not be a cyclic rotation
+            "three components, two of them swapped": ({frozenset(("s1", "t1")), frozenset(("s2", "t3")), frozenset(("s3", "t2"))},
+                                                      3, 3, True),
+            "three components, cyclically rotated": ({frozenset(("s1", "t2")), frozenset(("s2", "t3")), frozenset(("s3", "t1"))},
+                                                     3, 3, True),
+            "three components, one without a partner": ({frozenset(("s1", "t1")), frozenset(("s2", "t3"))}, 3, 3, False),
         }
         for label, (table, ns, nt, want) in worlds.items():
             S = Obj("S", subshapes=tuple(Sub(f"s{i + 1}", table) for i in range(ns)), kind=cls)
